@@ -246,4 +246,8 @@ def check(ctx, rep):
     rule_memo_coherent(ctx, rep)
     rule_requirement_constants(ctx, rep)
     rule_shared(ctx, rep)
+    from .c12 import MANIFEST_MODULES, rule_every_input_read
+
+    # one unreadable dependency manifest must not end the discovery of the others (they decide which store is written)
+    rule_every_input_read(ctx, rep, modules=MANIFEST_MODULES, min_loops=1)
     rep.not_covered += ["validity / preservation of arbitrary manifest texts under the writers' text surgery", "name canonicalisation in has_requirement"]
